@@ -464,8 +464,11 @@ def corrupt_oracle(lines, pid):
             e["after"]["edges"][0]["src"] = "T999"
             return "a connection re-attached by a Rename/Move"
         if pid == "C40" and e.get("hasDeltas") == 1 and e["after"]["objs"]:
-            e["deltas"].append([e["before"]["objs"][0]["id"], "zzz"])
-            return "a bogus ID delta added"
+            after = {o["lab"] for o in e["after"]["objs"]}
+            for o in e["before"]["objs"]:
+                if o["lab"] in after:
+                    e["deltas"] = [d for d in e["deltas"] if d[0] != o["id"]] + [[o["id"], "zzz"]]
+                    return "the predicted ID of a surviving object replaced by a bogus one"
         if pid == "C41" and e.get("boardsBefore"):
             for bb in e["boardsBefore"]:
                 if bb[2] == "other":
